@@ -196,4 +196,77 @@ PROPS = {
         "trusted_base": COMMON_TRUST,
         "assumptions": COMMON_ASSUME,
     },
+    "C01": {
+        "search": search_generic,
+        "suites": [("tau_star", 2500, 60000)],
+        "rule": "seeded mini-gringo programs (1-4 rules, term depth 0-2, all six operators incl. / \\ .., all three head kinds, all signs and relations, "
+                "variable pool containing I J K Q R Z Z1 V V1 V2 N0... so that fresh-name choices collide) + corpus/programs.txt (incl. the usize-overflow witness); "
+                "Program::tau_star vs Lean `tauStar` (+ panic predicate), exact theory equality",
+        "level_text": "Partial: val_denotes_values proves for every term (all operators, nesting) that val_t(Z) holds iff Z's value is a value of t in the reference "
+                      "semantics (multi-valued intervals, partial division/modulo, arithmetic undefined on non-integers) under the decidable name-freshness facts ValFreshOK; "
+                      "the literal/rule/program level (TauStarCorrect) is stated, not yet proved; tau_star is tied to the model by exact correspondence.",
+        "level_note": PROOF_NOTE + " Semantics/Asp.lean (reference semantics of mini-gringo: division only for positive divisors, as the source documents) is part of the specification.",
+        "technique": "Lean 4 proof (induction on terms, integer-sorted binders cannot capture general-sorted program variables) + differential correspondence",
+        "design_ref": "DESIGN.md 6/C01",
+        "trusted_base": COMMON_TRUST + ["Semantics/Asp.lean reference semantics"],
+        "assumptions": COMMON_ASSUME + ["ValFreshOK (decidable freshness of the chosen names I,J,K,Q,R) is a hypothesis of the key lemma; it is checked by kernel evaluation on examples and by the correspondence of fresh-name choices"],
+    },
+    "C03": {
+        "suites": [("strong", 400, 8000)],
+        "rule": "seeded program pairs x {independent, sequential} x {universal, forward, backward} x {mu, tau-star} x simplify x eq-break; StrongEquivalenceTask::decompose "
+                "vs Lean `strongProblems`: problem names, formula names, roles and formula trees all equal",
+        "level_text": "Partial: gamma_direction_refutes proves the gamma/decomposition core (for either decomposition some problem of a direction is refuted by the merged "
+                      "interpretation iff transition axioms hold, (H,T) satisfies all left formulas and fails a right one), built on C05 and C19; the translation step (C01/C08), "
+                      "simplification (C07 classic part) and symbol renaming are tied by exact correspondence of the whole pipeline.",
+        "level_note": PROOF_NOTE,
+        "technique": "Lean 4 proof by composition (gamma_correct + decomposition theorems) + end-to-end differential correspondence",
+        "design_ref": "DESIGN.md 6/C03",
+        "trusted_base": COMMON_TRUST,
+        "assumptions": COMMON_ASSUME + ["fixpoint simplification inside the pipeline is compared up to a pass bound of 64"],
+    },
+    "C04": {
+        "suites": [("completion", 1500, 30000), ("analyze", 800, 20000)],
+        "rule": "theories = tau* of seeded programs + hand-shaped implication theories (atom / #false / malformed consequents, repeated and non-variable head arguments, "
+                "reverse implications, free variables) with random input-predicate sets; Completion::completion vs Lean `completion` (incl. None), and is_tight vs `isTight`",
+        "level_text": "Partial: completion_refuses proves that everything completion accepts is completable per the independent specification (closed; one optional forall; "
+                      "implication with #false or an atom over pairwise distinct variables); CompletionTight (models of the completion = stable models) is stated, not yet proved.",
+        "level_note": PROOF_NOTE,
+        "technique": "Lean 4 proof (refusal half) + differential correspondence",
+        "design_ref": "DESIGN.md 6/C04",
+        "trusted_base": COMMON_TRUST,
+        "assumptions": COMMON_ASSUME,
+    },
+    "C08": {
+        "suites": [("natural", 1200, 30000)],
+        "rule": "seeded programs biased to arithmetic; natural() (incl. None), mu(), is_regular() vs the Lean model, exact equality",
+        "level_text": "Partial: mu_total, mu_rule_natural/_fallback, regular_iff, mu_eq_natural proved (structure of mu/natural/regularity); the semantic theorem NaturalCorrect "
+                      "is stated, not yet proved; natural/mu are tied by exact correspondence.",
+        "level_note": PROOF_NOTE,
+        "technique": "Lean 4 proof (structural) + differential correspondence",
+        "design_ref": "DESIGN.md 6/C08",
+        "trusted_base": COMMON_TRUST,
+        "assumptions": COMMON_ASSUME,
+    },
+    "C11": {
+        "suites": [("analyze", 1500, 40000), ("natural", 600, 10000)],
+        "rule": "seeded programs + random private-predicate sets; is_tight / has_private_recursion / is_regular vs the Lean model (explicit cycle test instead of petgraph)",
+        "level_text": "Partial: isCyclic_sound / not_tight_has_cycle (a reported cycle is a real cycle), choice_private_is_recursion, regular_iff (C08) proved; completeness of the "
+                      "cycle test and the external-task enforcement theorems are pending; the verdicts are tied by exact correspondence.",
+        "level_note": PROOF_NOTE + " petgraph's is_cyclic_directed is replaced by an explicit reachability test in the model.",
+        "technique": "Lean 4 proof (soundness of the cycle test) + differential correspondence",
+        "design_ref": "DESIGN.md 6/C11",
+        "trusted_base": COMMON_TRUST,
+        "assumptions": COMMON_ASSUME,
+    },
+    "C19": {
+        "suites": [("strong", 400, 8000), ("break_eq", 1000, 20000)],
+        "rule": "as C03 (all flag combinations) + break_equivalences_formula on seeded formulas with equivalences under universal prefixes",
+        "level_text": "Full for decomposition and eq-break: independent_refutes, sequential_refutes, decomposition_invariant, break_equiv(_ht), families_invariant proved for all problems, "
+                      "interpretations and assignments; the simplify flag reduces to C07 (map_equiv_all), whose classic part is partial.",
+        "level_note": PROOF_NOTE,
+        "technique": "Lean 4 proof (list induction over the decomposition loops, binder characterisation) + differential correspondence",
+        "design_ref": "DESIGN.md 6/C19",
+        "trusted_base": COMMON_TRUST,
+        "assumptions": COMMON_ASSUME,
+    },
 }
